@@ -37,9 +37,10 @@ if [ "$1" = "--tier" ]; then TIER=$2; shift 2; fi
 SELF=""
 if [ "$PROP" = "C12" ] && [ "$TIER" = "thorough" ]; then
   # instrumentation self-check: the repository's own tests against the instrumented build, shim in pass-through mode
+  # (the tests bind fixed ports: serialised with any other run of the suite on this machine by a lock file)
   cp $REPO/go.mod $scratch/self.mod; cp $REPO/go.sum $scratch/self.sum
   printf '\nrequire verif/shim v0.0.0\n\nreplace verif/shim => %s/shim\n' "$V" >> $scratch/self.mod
-  (cd /repo && timeout 600 go test -modfile=$scratch/self.mod -overlay $scratch/overlay.json -vet=off -count=1 -json . 2>/dev/null) | python3 -c "
+  (cd /repo && flock -w 1800 /tmp/rpc-test.lock timeout 600 go test -modfile=$scratch/self.mod -overlay $scratch/overlay.json -vet=off -count=1 -json . 2>/dev/null) | python3 -c "
 import sys,json
 p=set();f=set()
 for l in sys.stdin:
